@@ -22,6 +22,7 @@
 #include <yaclib/async/shared_future.hpp>
 #include <yaclib/exe/executor.hpp>
 #include <yaclib/exe/manual.hpp>
+#include <yaclib/exe/submit.hpp>
 #include <yaclib/lazy/make.hpp>
 #include <yaclib/lazy/schedule.hpp>
 #include <yaclib/lazy/task.hpp>
@@ -486,6 +487,16 @@ struct Fn0 {
   Token tok;
   Ret operator()() {
     return Body<Ret>(d, RVal{'v', 0});
+  }
+};
+// a job that is not a pipeline step: handed to yaclib::Submit(executor, f) (exe/submit.hpp), logs itself like a callback
+struct FreeFn {
+  int id;
+  Token tok;
+  void operator()() {
+    cnt::Off off;
+    W->inv.push_back(id);
+    W->ran.push_back({id, W->Ctx()});
   }
 };
 struct PromFn {
@@ -1003,6 +1014,7 @@ struct Interp {
   Handle cur;
   bool started = false;  // a src line was seen
   std::optional<RVal> got;
+  bool free_mode = false;  // the program hands free jobs to the executors (no pipeline)
   long last_news = 0;
   long last_virt = 0;
   ProgD top;  // keeps the StepD of the top-level pipeline alive (functors point into it)
@@ -1188,11 +1200,29 @@ struct Interp {
     if (W->bad) {
       return "bad";
     }
-    if (!started && (c == "set" || c == "flush" || c == "call" || c == "drain")) {
+    if (c == "submit" && t.size() == 3) {
+      // a program without a pipeline: free jobs, `submit <ex> <id>` = yaclib::Submit(<ex>, f_<id>)
+      ExRef e;
+      long id;
+      if (started || !ParseEx(t[1], e) || !ParseLong(t[2], id)) {
+        return "bad";
+      }
+      free_mode = true;
+      yaclib::IExecutor& ex = Exec(e);
+      {
+        cnt::On on;
+        yaclib::Submit(ex, FreeFn{static_cast<int>(id), {}});
+      }
+      return State();
+    }
+    if (!started && !free_mode && (c == "set" || c == "flush" || c == "call" || c == "drain")) {
       return State();  // nothing is built yet: the client has nothing to deliver to
     }
     std::string obs;
     if (c == "src") {
+      if (free_mode) {
+        return "bad";
+      }
       if (started || !ParseSrc(t, 1, top.src)) {
         W->bad = true;
         return "bad";
